@@ -117,15 +117,60 @@ def _touch_results(method, res, root):
     return (len(res) > 0, tuple(sorted(set(shape))))
 
 
+# A small on-disk project: buffers analysed *inside* it reach packages, namespace directories,
+# stubs next to modules, setup.py, relative imports (the first families used an empty project).
+PROJECT_FILES = {
+    'setup.py': 'from setuptools import setup\nsetup(name="demo")\n',
+    'pkg/__init__.py': 'from .mod import helper\nVERSION = "1"\n',
+    'pkg/mod.py': 'def helper(a, b=2):\n    """doc"""\n    return a\n\nclass Thing:\n    attr = 1\n',
+    'pkg/mod.pyi': 'def helper(a: int, b: int = ...) -> int: ...\nclass Thing:\n    attr: int\n',
+    'pkg/sub/__init__.py': '',
+    'pkg/sub/leaf.py': 'from .. import mod\nfrom ..mod import Thing\nvalue = Thing()\n',
+    'ns/inner.py': 'inner_value = 3\n',
+    'ns/deep/more.py': 'more_value = 4\n',
+    'lonely.pyi': 'lonely_value: int\n',
+    'b.py': 'import pkg\n',
+}
+PROJECT_BUFFERS = {
+    'b.py': ['from . import setup\nsetup.\n', 'import pkg\npkg.mod.helper(\npkg.sub.leaf.value.\n',
+             'import ns.inner\nns.inner.inner_value\nns.deep.more.\nimport ns\nns.\n',
+             'from pkg import *\nhelper(1, \nVERSION.\n', 'import lonely\nlonely.lonely_value\n',
+             'from pkg.mod import Thing as T, helper as h\nT().attr\nh(b=1, \n'],
+    'pkg/sub/extra.py': ['from . import leaf\nleaf.value.attr\nfrom .. import mod, sub\nmod.\nsub.\n',
+                         'from ... import toofar\nfrom . import nothing\nfrom .leaf import *\nvalue\n'],
+    'ns/new.py': ['from . import inner\ninner.\nimport ns.deep.more as m\nm.more_value\n'],
+}
+
+
+def _project(kind):
+    jedi = boot.boot()
+    root = os.path.join(boot.scratch_root(), 'c01tree_%d' % os.getpid())
+    if not os.path.isdir(root):
+        for rel, text in PROJECT_FILES.items():
+            p = os.path.join(root, rel)
+            os.makedirs(os.path.dirname(p), exist_ok=True)
+            with open(p, 'w') as f:
+                f.write(text)
+    if kind == 'plain':
+        return root, jedi.Project(root)
+    if kind == 'nosmart':
+        return root, jedi.Project(root, smart_sys_path=False)
+    return root, jedi.Project(root, sys_path=[root], smart_sys_path=False)
+
+
 def _run_text(task):
     """All queries on one text.  Returns failures and coverage counters."""
     tid, code, mode = task['id'], task['code'], task.get('mode', 'all')
     jedi = boot.boot()
     env = boot.environment()
-    root = os.path.join(boot.scratch_root(), 'c01proj')
-    os.makedirs(root, exist_ok=True)
-    project = jedi.Project(root, smart_sys_path=False)
-    path = os.path.join(root, 'b', 'w%d_%s.py' % (os.getpid(), re.sub(r'\W', '_', tid)[:60]))
+    if task.get('proj'):
+        root, project = _project(task['proj'])
+        path = os.path.join(root, task['relpath'])
+    else:
+        root = os.path.join(boot.scratch_root(), 'c01proj')
+        os.makedirs(root, exist_ok=True)
+        project = jedi.Project(root, smart_sys_path=False)
+        path = os.path.join(root, 'b', 'w%d_%s.py' % (os.getpid(), re.sub(r'\W', '_', tid)[:60]))
     fails = []
     shapes = set()
     evals = 0
@@ -165,6 +210,18 @@ def _run_text(task):
                     raise
                 fail(what, e, 'no exception' if ok else 'ValueError')
     idents = sorted(set(IDENT.findall(code)))[:6] + ['']
+    if task.get('proj'):
+        idents += ['setup', 'ns.inner', 'pkg.mod.helper', 'lonely', 'Thing']
+        for ident in idents:
+            for m in ('search', 'complete_search'):
+                evals += 1
+                try:
+                    res = list(getattr(project, m)(ident))
+                    shapes.add(('Project.' + m,) + _touch_results(m, res, root))
+                except BaseException as e:
+                    if isinstance(e, (KeyboardInterrupt, SystemExit)):
+                        raise
+                    fail(['Project.' + m, None, None, {'string': ident}], e, 'no exception')
     file_calls = [('get_names', {}), ('get_names', {'all_scopes': True, 'references': True}),
                   ('get_names', {'all_scopes': True, 'definitions': False, 'references': True}),
                   ('get_syntax_errors', {})]
@@ -222,6 +279,11 @@ def _families(tier):
                                                      for n, t in quick_files if len(t) < 700]))
         fams.append(('statement-kind snippets(all positions)',
                      [dict(id='snip:' + k, code=v) for k, v in sorted(SNIPPETS.items())]))
+        fams.append(('buffers inside an on-disk project x project options(all positions)',
+                     [dict(id='proj:%s:%s:%d' % (kind, rel, k), code=c, proj=kind, relpath=rel)
+                      for kind in ('plain', 'nosmart', 'explicit')
+                      for rel, bufs in sorted(PROJECT_BUFFERS.items())
+                      for k, c in enumerate(bufs)]))
         fams.append(('line-separator characters(all positions)',
                      [dict(id='sep:%d:%d' % (a, b), code=t % sp)
                       for a, sp in enumerate(SEPARATORS) for b, t in enumerate(SEP_TEMPLATES)]))
@@ -250,6 +312,11 @@ def _families(tier):
         fams.append(('small-edits(quick corpus)', edits))
         fams.append(('corpus(all positions)', [dict(id='file:' + n, code=t)
                                                for n, t in corpus.all_files() if len(t) < 6000]))
+        fams.append(('buffers inside an on-disk project x project options(all positions)',
+                     [dict(id='proj:%s:%s:%d' % (kind, rel, k), code=c, proj=kind, relpath=rel)
+                      for kind in ('plain', 'nosmart', 'explicit')
+                      for rel, bufs in sorted(PROJECT_BUFFERS.items())
+                      for k, c in enumerate(bufs)]))
         snip = []
         for k, v in sorted(SNIPPETS.items()):
             snip.append(dict(id='snip:' + k, code=v))
